@@ -19,7 +19,11 @@ import mutants  # noqa
 
 
 def run_one(name, checks, cy, tier):
-    file, old, new, expect = mutants.M[name][:4]
+    patch = None
+    if name.endswith(".diff"):
+        patch, expect = os.path.abspath(name), []
+    else:
+        file, old, new, expect = mutants.M[name][:4]
     checks = checks or expect
     tmp = tempfile.mkdtemp(prefix="asynq-mut-")
     try:
@@ -28,11 +32,18 @@ def run_one(name, checks, cy, tier):
         shutil.copytree("/repo/asynq", os.path.join(repo, "asynq"), ignore=shutil.ignore_patterns("*.so", "__pycache__", "*.c", "tests"))
         for f in ("setup.py", "README.rst"):
             shutil.copy("/repo/" + f, repo)
-        p = os.path.join(repo, file)
-        src = open(p).read()
-        if src.count(old) != 1:
-            return name, {"error": "pattern occurs %d times" % src.count(old)}
-        open(p, "w").write(src.replace(old, new))
+        if patch:
+            r = subprocess.run(["git", "apply", "--unsafe-paths", "--directory=" + repo, patch], cwd=repo, stdout=subprocess.PIPE, stderr=subprocess.STDOUT, text=True)
+            if r.returncode != 0:
+                r = subprocess.run(["patch", "-p1", "-d", repo, "-i", patch], stdout=subprocess.PIPE, stderr=subprocess.STDOUT, text=True)
+                if r.returncode != 0:
+                    return name, {"error": "patch does not apply: " + r.stdout[-300:]}
+        else:
+            p = os.path.join(repo, file)
+            src = open(p).read()
+            if src.count(old) != 1:
+                return name, {"error": "pattern occurs %d times" % src.count(old)}
+            open(p, "w").write(src.replace(old, new))
         env = dict(os.environ, VERIF_REPO=repo, VERIF_SCRATCH=os.path.join(tmp, "scratch"), VERIF_STALL_S="40", VERIF_RERUN_S="60")
         if not cy:
             env["VERIF_SKIP_CY"] = "1"
@@ -54,6 +65,8 @@ def main():
     cy = "--cy" in sys.argv
     tier = "quick"
     names = list(mutants.M) if args[0] == "all" else args[0].split(",")
+    if "--thorough" in sys.argv:
+        tier = "thorough"
     checks = args[1].split(",") if len(args) > 1 else None
     if checks:
         names = [n for n in names if args[0] != "all" or set(checks) & set(mutants.M[n][3])]
